@@ -32,7 +32,7 @@ TInit ==
   /\ l = 1 /\ okf = TRUE /\ scn = "" /\ live = FALSE
   /\ n = 0 /\ E = {} /\ C = <<>> /\ es = <<>> /\ cnt = <<>> /\ readyQ = <<>> /\ readyTx = FALSE /\ doneQ = <<>>
   /\ doneTx = FALSE /\ rem = 0 /\ held = {} /\ dropped = {} /\ yielded = <<>>
-  /\ wDone = FALSE /\ wReady = FALSE /\ woken = FALSE /\ last = "never" /\ streamDropped = FALSE
+  /\ wDone = 0 /\ wReady = 0 /\ woken = {} /\ cur = 1 /\ last = "never" /\ streamDropped = FALSE
   /\ is = IS0 /\ sigChan = FALSE /\ sigSent = FALSE /\ afterSig = 0 /\ intSeen = FALSE
 
 Verdict == PrintT("TI " \o scn \o (IF okf THEN " ok" ELSE " drift"))
@@ -42,7 +42,7 @@ TReset ==
   /\ (scn # "" => Verdict)
   /\ scn' = Rec[l].scn /\ okf' = TRUE /\ live' = FALSE /\ Step
   /\ n' = Rec[l].n
-  /\ UNCHANGED <<E, C, es, cnt, readyQ, readyTx, doneQ, doneTx, rem, held, dropped, yielded, wDone, wReady, woken, last,
+  /\ UNCHANGED <<E, C, es, cnt, readyQ, readyTx, doneQ, doneTx, rem, held, dropped, yielded, wDone, wReady, woken, cur, last,
                  streamDropped, is, sigChan, sigSent, afterSig, intSeen>>
 
 TBuild ==
@@ -50,7 +50,7 @@ TBuild ==
   /\ LET sq == [i \in DOMAIN Rec[l].edges |-> <<Rec[l].edges[i][1], Rec[l].edges[i][2]>>] IN
      /\ es' = sq /\ E' = Range(sq) /\ C' = ReachAny(n, Range(sq))
   /\ Step
-  /\ UNCHANGED <<n, cnt, readyQ, readyTx, doneQ, doneTx, rem, held, dropped, yielded, wDone, wReady, woken, last,
+  /\ UNCHANGED <<n, cnt, readyQ, readyTx, doneQ, doneTx, rem, held, dropped, yielded, wDone, wReady, woken, cur, last,
                  streamDropped, is, sigChan, sigSent, afterSig, intSeen, okf, scn, live>>
 
 (* the call event of a stream run, followed by fn_graph's own `setup` event: counts and preload order *)
@@ -66,7 +66,7 @@ TCall ==
      /\ cnt' = c0 /\ readyQ' = su.preload
   /\ readyTx' = (n > 0) /\ doneTx' = (n > 0) /\ doneQ' = <<>> /\ rem' = n
   /\ held' = {} /\ dropped' = {} /\ yielded' = <<>>
-  /\ wDone' = FALSE /\ wReady' = FALSE /\ woken' = FALSE /\ last' = "never" /\ streamDropped' = FALSE
+  /\ wDone' = 0 /\ wReady' = 0 /\ woken' = {} /\ cur' = 1 /\ last' = "never" /\ streamDropped' = FALSE
   /\ is' = IS0 /\ sigChan' = (PreSig /\ Wrapped /\ HasChannel(Strategy)) /\ sigSent' = FALSE /\ afterSig' = 0
   /\ intSeen' = FALSE
   /\ live' = TRUE /\ l' = l + 2
@@ -79,30 +79,30 @@ OutOf(e) == IF e.res = "pending" THEN "pending"
 
 TPoll ==
   /\ IsEv("spoll") /\ okf /\ live
-  /\ Poll
+  /\ Poll(Rec[l].w + 1)                                      \* the task (waker) that polled
   /\ last' = OutOf(Rec[l])                                   \* the same outcome
   /\ (Rec[l].f # 0 => yielded'[Len(yielded')] = Rec[l].f)    \* the same function
-  /\ woken' = Rec[l].woken                                   \* the same waker flag afterwards
+  /\ (cur' \in woken') = Rec[l].woken                        \* the same waker flag of that task afterwards
   /\ Step /\ UNCHANGED <<okf, scn, live>>
 
 TDrop ==
   /\ IsEv("drop_ref") /\ okf /\ live
   /\ DropRef(Rec[l].f)
-  /\ (~streamDropped => woken' = Rec[l].woken)      \* once the stream is gone its wakers are nobody's business
+  /\ (~streamDropped => (cur \in woken') = Rec[l].woken)      \* once the stream is gone its wakers are nobody's business
   /\ Step /\ UNCHANGED <<okf, scn, live>>
 
 TDropStream ==
   /\ IsEv("drop_stream") /\ okf /\ live
   /\ ~streamDropped /\ streamDropped' = TRUE
   /\ UNCHANGED <<n, E, C, es, cnt, readyQ, readyTx, doneQ, doneTx, rem, held, dropped, yielded, wDone, wReady, woken,
-                 last, is, sigChan, sigSent, afterSig, intSeen>>
+                 cur, last, is, sigChan, sigSent, afterSig, intSeen>>
   /\ Step /\ UNCHANGED <<okf, scn, live>>
 
 TSignal ==
   /\ IsEv("signal") /\ okf /\ live
   /\ sigSent' = TRUE /\ sigChan' = Rec[l].sent
   /\ UNCHANGED <<n, E, C, es, cnt, readyQ, readyTx, doneQ, doneTx, rem, held, dropped, yielded, wDone, wReady, woken,
-                 last, streamDropped, is, afterSig, intSeen>>
+                 cur, last, streamDropped, is, afterSig, intSeen>>
   /\ Step /\ UNCHANGED <<okf, scn, live>>
 
 Matched == {"reset", "build", "call", "spoll", "drop_ref", "drop_stream", "signal"}
